@@ -372,25 +372,31 @@ def cvInts : List CV → Option (List Int)
   | .val (.int v) :: r => (cvInts r).map (v :: ·)
   | _ :: _ => none
 
-/-- `_constant_value_of_function` for a binary function, given the operand results. -/
-def cvBin (op : BinOp) (a b : CV) : CV :=
+/-- the generic tail of `_constant_value_of_function`: any unknown operand ⇒ unknown,
+    otherwise the `functions[...]` table -/
+def cvTable (op : BinOp) (a b : CV) : CV :=
   match a, b with
-  | .crash, _ => .crash
-  | _, .crash => .crash
-  | a, b =>
-    match op with
-    | .and =>
-      if a = .val (.bool false) ∨ b = .val (.bool false) then .val (.bool false)
-      else if a = .unknown ∨ b = .unknown then .unknown
-      else .val (.bool true)
-    | .or =>
-      if a = .val (.bool true) ∨ b = .val (.bool true) then .val (.bool true)
-      else if a = .unknown ∨ b = .unknown then .unknown
-      else .val (.bool false)
-    | op =>
-      match a, b with
-      | .val x, .val y => match applyBin op x y with | some v => .val v | none => .crash
-      | _, _ => .unknown
+  | .val x, .val y => match applyBin op x y with | some v => .val v | none => .crash
+  | _, _ => .unknown
+
+def cvAnd (a b : CV) : CV :=
+  if a = .val (.bool false) ∨ b = .val (.bool false) then .val (.bool false)
+  else if a = .unknown ∨ b = .unknown then .unknown
+  else .val (.bool true)
+
+def cvOr (a b : CV) : CV :=
+  if a = .val (.bool true) ∨ b = .val (.bool true) then .val (.bool true)
+  else if a = .unknown ∨ b = .unknown then .unknown
+  else .val (.bool false)
+
+/-- `_constant_value_of_function` for a binary function, given the operand results
+    (both operands are always evaluated first). -/
+def cvBin (op : BinOp) (a b : CV) : CV :=
+  if a = .crash ∨ b = .crash then .crash
+  else match op with
+    | .and => cvAnd a b
+    | .or => cvOr a b
+    | op => cvTable op a b
 
 def cvChoice (c t f : CV) : CV :=
   match c, t, f with
@@ -421,27 +427,41 @@ def atypeConstCV : Option AType → CV
   | some (.enum (some v)) => .val (.enum v)
   | _ => .crash
 
-/-- node-level transfer of a binary function given child types and (for comparisons,
-    `&&`, `||`) the `constant_value`s of the children.  `all(is_constant(arg))`
-    short-circuits: the right operand's `constant_value` is not computed when the left
-    one is unknown. -/
-def absBin (op : BinOp) (l r : AType) (cl cr : CV) : Option AType :=
-  match op with
-  | .add => match l, r with | .int a, .int b => (additive false a b).map .int | _, _ => none
-  | .sub => match l, r with | .int a, .int b => (additive true a b).map .int | _, _ => none
-  | .mul => match l, r with | .int a, .int b => (multiplicative a b).map .int | _, _ => none
-  | op =>
-    match cl with
+/-- `_compute_constant_value_of_comparison_operator` (also used for `&&`, `||`), given
+    the `constant_value`s of the operands.  `all(is_constant(arg) …)` short-circuits:
+    the right operand's `constant_value` is not computed when the left one is unknown. -/
+def absCmp (op : BinOp) (cl cr : CV) : Option AType :=
+  match cl with
+  | .crash => none
+  | .unknown => some (.bool none)
+  | .val x =>
+    match cr with
     | .crash => none
     | .unknown => some (.bool none)
-    | .val x =>
-      match cr with
-      | .crash => none
-      | .unknown => some (.bool none)
-      | .val y =>
-        match applyBin op x y with
-        | some (.bool b) => some (.bool (some b))
-        | _ => none
+    | .val y =>
+      match applyBin op x y with
+      | some (.bool b) => some (.bool (some b))
+      | _ => none
+
+def absArith (op : BinOp) (a b : AVal) : Option AVal :=
+  match op with
+  | .add => additive false a b
+  | .sub => additive true a b
+  | .mul => multiplicative a b
+  | _ => none
+
+def isArith : BinOp → Bool
+  | .add | .sub | .mul => true
+  | _ => false
+
+/-- node-level transfer of a binary function given child types and the
+    `constant_value`s of the children. -/
+def absBin (op : BinOp) (l r : AType) (cl cr : CV) : Option AType :=
+  if isArith op then
+    match l, r with
+    | .int a, .int b => (absArith op a b).map .int
+    | _, _ => none
+  else absCmp op cl cr
 
 /-- `_compute_constraints_of_choice_operator`. -/
 def absChoice (c t f : AType) : Option AType :=
